@@ -89,7 +89,7 @@ SeqCls == { C(1, "eq", "ample", "some", "acct", "none", 2),
             C(1, "eq", "below", "zero", "acct", "data", 1),
             C(1, "eq", "exact", "over1", "acct", "none", 1) }
 
-Cls == IF Alphabet = "full" THEN FullCls ELSE IF Alphabet = "sig" THEN {} ELSE SeqCls
+Cls == IF Alphabet = "full" THEN FullCls ELSE IF Alphabet \in {"sig", "obj"} THEN {} ELSE SeqCls
 \* under the older protocol versions the quick configuration keeps the classes with the next nonce that go to the staking
 \* module (every limit / value / payload / price / sender), and a thin slice of the others
 ClsOK(c) == \/ Alphabet # "full" \/ ver = 5 \/ AllFull
@@ -159,23 +159,57 @@ SeqMutations == Mutations \ {"netid_signer"}            \* (that one IS "ask the
 \* what deriving the sender from scratch yields.  Foreign signer: the V of every case names the home network
 \* (ErrInvalidNetworkId / ErrNotProtected), except netid_v, whose V names the foreign network while the signed hash does not
 RecoverUnder(m, sg) == IF sg = "home" THEN Recover(m) ELSE IF m = "netid_v" THEN "other" ELSE "err"
-SigOff == [on |-> FALSE, cls |-> C(1, "eq", "ample", "zero", "acct", "none", 1), mut |-> "none", cache |-> <<>>, res |-> <<>>]
-NewObject(c, m) == [on |-> TRUE, cls |-> c, mut |-> m, cache |-> <<>>, res |-> <<>>]     \* decoded from RLP: no cache
-ResolveOn(s, sg) ==
+\* The object also caches its HASH (Transaction.Hash), and it can be RE-USED: another transaction ("B": a plain transfer signed by
+\* the second key) is decoded into the same value after the caches were filled.  As coded: UnmarshalJSON replaces the whole
+\* object (`*tx = Transaction{data: dec}`: caches gone); DecodeRLP -- reached through rlp.DecodeBytes(b, &obj) ("rlp") or called
+\* on a stream ("rlpstream") -- replaces tx.data only and KEEPS the cached hash and sender (DecodeRLPKeepsCaches, a named
+\* deviation: no production caller decodes into a used Transaction).  content: whose fields the object holds now ("A": the case,
+\* "B"); via: how they got there; hashc: the cached hash ("none" / "A" / "B").
+Decoders == {"json", "rlp", "rlpstream"}
+Ops == Signers \cup {"hash", "apply"} \cup Decoders
+SigOff == [on |-> FALSE, cls |-> C(1, "eq", "ample", "zero", "acct", "none", 1), mut |-> "none", cache |-> <<>>, res |-> <<>>,
+           content |-> "A", via |-> "new", hashc |-> "none"]
+NewObject(c, m) == [SigOff EXCEPT !.on = TRUE, !.cls = c, !.mut = m]                         \* decoded from RLP into a fresh value: no cache
+\* what a fresh object with this content answers
+FreshAns(m, content, op) ==
+   CASE op = "hash" -> content
+     [] op \in {"home", "apply"} -> IF content = "A" THEN RecoverUnder(m, "home") ELSE "B"    \* apply: who is charged (AsMessage -> Sender)
+     [] op = "foreign" -> IF content = "A" THEN RecoverUnder(m, "foreign") ELSE "err"
+     [] OTHER -> "ok"
+ResolveAs(s, sg, op) ==
    LET hit == s.cache # <<>> /\ s.cache[1].signer = sg                                   \* sigCache.signer.Equal(signer)
-       ans == IF hit THEN s.cache[1].from ELSE RecoverUnder(s.mut, sg)
-   IN [s EXCEPT !.res = Append(@, [signer |-> sg, ans |-> ans]),
+       ans == IF hit THEN s.cache[1].from ELSE FreshAns(s.mut, s.content, sg)
+   IN [s EXCEPT !.res = Append(@, [signer |-> op, ans |-> ans, content |-> s.content, via |-> s.via]),
                 !.cache = IF ~hit /\ ans # "err" THEN <<[signer |-> sg, from |-> ans]>> ELSE @]
+ResolveOn(s, sg) == ResolveAs(s, sg, sg)
+HashOn(s) == LET ans == IF s.hashc # "none" THEN s.hashc ELSE s.content IN
+             [s EXCEPT !.res = Append(@, [signer |-> "hash", ans |-> ans, content |-> s.content, via |-> s.via]), !.hashc = ans]
+DecodeInto(s, dec) ==
+   LET t == [s EXCEPT !.content = "B", !.via = dec, !.res = Append(@, [signer |-> dec, ans |-> "ok", content |-> "B", via |-> dec])] IN
+   IF dec = "json" THEN [t EXCEPT !.cache = <<>>, !.hashc = "none"] ELSE t               \* DecodeRLPKeepsCaches
+OpOn(s, op) == CASE op \in Signers -> ResolveOn(s, op)
+                 [] op = "apply" -> ResolveAs(s, "home", "apply")
+                 [] op = "hash" -> HashOn(s)
+                 [] OTHER -> DecodeInto(s, op)
 SigCases == IF Alphabet = "sig" THEN { c \in SigCls : c.price = 1 } ELSE {}
+ObjCases == IF Alphabet = "obj" THEN { c \in SigCls : c.price = 1 /\ c.val = "zero" /\ c.tp \in { <<"acct", "none">>, <<"create", "ok">>,
+                                                                                                <<"staking", "delegate">>, <<"contract", "clear">> } }
+            ELSE {}
 SigNext == /\ \/ ~sig.on /\ \E c \in SigCases, m \in SeqMutations : sig' = NewObject(c, m)
-              \/ sig.on /\ Len(sig.res) < MaxTx /\ \E sg \in Signers : sig' = ResolveOn(sig, sg)
+              \/ ~sig.on /\ \E c \in ObjCases : sig' = NewObject(c, "none")
+              \/ sig.on /\ Alphabet = "sig" /\ Len(sig.res) < MaxTx /\ \E sg \in Signers : sig' = ResolveOn(sig, sg)
+              \/ sig.on /\ Alphabet = "obj" /\ Len(sig.res) < MaxTx
+                        /\ \E op \in Ops : (op \in Decoders => sig.content = "A") /\ sig' = OpOn(sig, op)
            /\ UNCHANGED <<nonce, bal, pool, gu, gr, mode, dead, last, hist, ver>>
 \* property layer: "A transaction's sender is the holder of the key that signed exactly its fields for this network" --
-\* whatever was asked of the same object before: every answer is the answer a fresh derivation gives
+\* whatever was asked of the same object before and however its present fields got into it: every answer (sender, hash, who
+\* is charged when it is applied) is the answer a fresh object with these fields gives
 CacheTransparent ==
-   \A i \in DOMAIN sig.res : sig.res[i].ans = RecoverUnder(sig.mut, sig.res[i].signer)
+   \A i \in DOMAIN sig.res : \/ sig.res[i].ans = FreshAns(sig.mut, sig.res[i].content, sig.res[i].signer)
+                              \/ (KnownRefund /\ sig.res[i].via \in {"rlp", "rlpstream"})     \* known: DecodeRLPKeepsCaches
 SenderAuthenticSeq ==
-   \A i \in DOMAIN sig.res : (sig.res[i].ans = "same") <=> (sig.res[i].signer = "home" /\ sig.mut = "none")
+   \A i \in DOMAIN sig.res : sig.res[i].content = "A" /\ sig.res[i].signer \in Signers =>
+                                 ((sig.res[i].ans = "same") <=> (sig.res[i].signer = "home" /\ sig.mut = "none"))
 
 \* ---------------------------------------------------------------- design layer
 Init == /\ nonce = Nonce0 /\ bal = Bal0 /\ pool = Pool0 /\ gu = 0 /\ gr = 0
@@ -264,7 +298,7 @@ ApplyWith(t, c, Outs) ==
 ApplyConc(t, c) == ApplyWith(t, c, ModelOutcomes(t))
 
 Next == \/ \E c \in Cls : ClsOK(c) /\ ApplyConc(Conc(c), c)
-        \/ Alphabet = "sig" /\ SigNext
+        \/ Alphabet \in {"sig", "obj"} /\ SigNext
 Spec == Init /\ [][Next]_vars
 
 \* ---------------------------------------------------------------- property layer
@@ -340,6 +374,10 @@ Leaf == /\ (GenMode = "leaf" /\ (Len(hist) = MaxTx \/ dead) /\ Len(hist) > 0) =>
               \A c \in { x \in SigCls : x.price = 1 /\ x.val = "zero" }, n \in NetIds :
                  PrintT("@@J " \o ToJson([kind |-> "B", h |-> [kind |-> "vsweep", tx |-> c, net |-> n,
                                                                vs |-> [i \in 1..(2 * n + 41) |-> i - 1]]]))
+        \* object re-use: every sequence of 1..MaxTx operations on one object
+        /\ (GenMode = "objseq" /\ sig.on /\ Len(sig.res) > 0 /\ mode = "miner") =>
+              PrintT("@@J " \o ToJson([kind |-> "B", h |-> [kind |-> "objseq", tx |-> sig.cls,
+                                                            seq |-> [i \in DOMAIN sig.res |-> sig.res[i].signer]]]))
         /\ (GenMode = "big" /\ hist = <<>> /\ ~sig.on) =>
               \A c \in BigCls : PrintT("@@J " \o ToJson([kind |-> "B", h |-> [kind |-> "applybig", mode |-> mode, ver |-> ver, cls |-> c,
                                                                               expect |-> BigExpect(c)]]))
